@@ -29,10 +29,14 @@ CPPFLAGS = ['-DHAVE_CONFIG_H', '-D_POSIX_C_SOURCE=200112L', '-D_XOPEN_SOURCE=600
 
 # checks that are on for every obligation: an out-of-bounds table read or a
 # division by zero makes any functional result meaningless
-BASE_CHECKS = ['--no-standard-checks', '--bounds-check', '--pointer-check',
-               '--div-by-zero-check']
+# (cbmc 6 defaults: bounds, pointer, div-by-zero, signed-overflow, undefined-shift,
+# pointer-primitive, and an assertion for every call of a body-less function;
+# --no-standard-checks would also drop the latter, which must stay: a missing
+# body silently returns an arbitrary value)
+BASE_CHECKS = ['--no-signed-overflow-check', '--no-undefined-shift-check']
+FUNC_ONLY = ['--no-pointer-primitive-check']
 # additional ones where memory safety / totality is the subject
-MEM_CHECKS = ['--pointer-overflow-check', '--pointer-primitive-check']
+MEM_CHECKS = ['--pointer-overflow-check']
 
 NCPU = int(os.environ.get('VERIF_JOBS', os.cpu_count() or 4))
 
@@ -255,18 +259,25 @@ class Ctx(object):
         if p.returncode != 0 or not os.path.exists(tmp):
             raise Broken('goto-cc failed for %s:\n%s' % (ob.harness, p.stdout[-3000:]))
         if ob.remove_bodies:
-            # DESIGN 2.3 measure B: kernels the dispatch must not reach
-            cmd = ['goto-instrument']
-            for f in ob.remove_bodies:
-                cmd += ['--remove-function-body', f]
-            cmd += [tmp, tmp + '.1']
-            sh(cmd, check=True, timeout=300)
-            cmd = ['goto-instrument', '--generate-function-body',
-                   '|'.join(re.escape(f) for f in ob.remove_bodies),
-                   '--generate-function-body-options', 'assert-false-assume-false',
-                   tmp + '.1', tmp]
-            sh(cmd, check=True, timeout=300)
-            os.unlink(tmp + '.1')
+            # DESIGN 2.3 measure B: kernels the dispatch must not reach get the
+            # body `assert(false); assume(false)': reaching one is a failure,
+            # not reaching them costs nothing.  remove_bodies = regexes
+            lst = sh(['goto-instrument', '--list-goto-functions', tmp], timeout=300).stdout
+            have = re.findall(r'^(\w+) /\* \1 \*/$', lst, re.M)
+            pat = re.compile('^(?:' + '|'.join(ob.remove_bodies) + ')$')
+            victims = [f for f in have if pat.match(f)]
+            if victims:
+                cmd = ['goto-instrument']
+                for f in victims:
+                    cmd += ['--remove-function-body', f]
+                cmd += [tmp, tmp + '.1']
+                sh(cmd, check=True, timeout=300)
+                cmd = ['goto-instrument', '--generate-function-body',
+                       '^(' + '|'.join(victims) + ')$',
+                       '--generate-function-body-options', 'assert-false-assume-false',
+                       tmp + '.1', tmp]
+                sh(cmd, check=True, timeout=300)
+                os.unlink(tmp + '.1')
         os.rename(tmp, out)
         return out
 
@@ -293,6 +304,7 @@ class Ctx(object):
             r.detail = str(e)
             return r
         cap = ob.timeout or self.solver_cap
+        envpath = None
         cmd = ['cbmc', gb, '--function', ob.func, '--unwind', str(ob.unwind),
                '--unwinding-assertions', '--drop-unused-functions',
                '--no-malloc-may-fail', '--json-ui', '--trace', '--slice-formula',
@@ -300,6 +312,8 @@ class Ctx(object):
         cmd += BASE_CHECKS
         if ob.mem:
             cmd += MEM_CHECKS
+        else:
+            cmd += FUNC_ONLY
         if ob.unwindset:
             cmd += ['--unwindset', ','.join(ob.unwindset)]
         if ob.nondet_static:
@@ -312,14 +326,29 @@ class Ctx(object):
             cmd += ['--external-sat-solver', 'kissat']
         elif ob.solver == 'z3':
             cmd += ['--z3']
+        elif ob.solver == 'cvc5int':
+            # integer encoding that keeps mod-2^k semantics: decides
+            # multiply/divide-by-constant kernels that stall bit-blasting
+            shim = os.path.join(self.scratch, 'shim')
+            with self.lock:
+                if not os.path.exists(shim):
+                    os.makedirs(shim)
+                    with open(os.path.join(shim, 'cvc5'), 'w') as fh:
+                        fh.write('#!/bin/sh\nexec /usr/bin/cvc5 --solve-bv-as-int=sum "$@"\n')
+                    os.chmod(os.path.join(shim, 'cvc5'), 0o755)
+            cmd += ['--cvc5']
+            envpath = shim + ':' + os.environ.get('PATH', '')
         elif ob.solver == 'minisat':
             pass
         cmd += ob.flags
         memlimit = int(os.environ.get('VERIF_MEM_KB', 12 * 1024 * 1024))
+        env = dict(os.environ)
+        if envpath:
+            env['PATH'] = envpath
         try:
             p = subprocess.run(['bash', '-c', 'ulimit -v %d; exec "$@"' % memlimit, 'x'] + cmd,
                                stdout=subprocess.PIPE, stderr=subprocess.PIPE,
-                               timeout=cap, text=True, errors='replace')
+                               timeout=cap, text=True, errors='replace', env=env)
         except subprocess.TimeoutExpired:
             r.status = 'inconclusive'
             r.detail = 'solver cap %ds exceeded' % cap
@@ -375,6 +404,10 @@ class Ctx(object):
                 continue
             if st == 'SUCCESS':
                 continue
+            if '.no-body.' in pid:
+                r.status = 'broken'
+                r.detail = 'harness incomplete: %s' % desc
+                return
             if '.unwind.' in pid or 'recursion' in pid and 'unwinding' in desc:
                 r.unwind_ok = False
                 bad.append((pid, desc, pr))
@@ -634,7 +667,7 @@ def conclude(ctx, obs, level_note, assumptions, stubs, rule, pre_info, extra_cov
             else:
                 problems.append('ENCODING-MISMATCH %s: counterexample does not reproduce on the real build: %s | %s' % (
                     ob.name, r.failed_props[:2], r.replay_out[-300:].replace('\n', ' ')))
-        elif r.status == 'holds' or (only and r.status == 'vacuous'):
+        elif r.status == 'holds' or (ob.kfmode and r.status == 'vacuous'):
             # ONLY variants: the listed finding is gone (fixed) or lies
             # outside this obligation's window; nothing to print
             pass
@@ -836,3 +869,16 @@ def specname(sp):
     """a key-safe name for a format specifier"""
     m = {'%': '', '_': 'u', '-': 'minus', ' ': 'spc', '0': 'zero'}
     return ''.join(m.get(c, c) for c in sp)
+
+
+# calendars' kernels (measure B): everything arithmetic of the calendars NOT in keep
+def prune_cals(keep):
+    cals = ['ymd', 'ymcw', 'ywd', 'yd', 'bizda', 'daisy']
+    out = []
+    for c in cals:
+        if c in keep:
+            continue
+        out.append(r'__%s_(add_[bdwmy]|fixup(_[a-z])?|diff|to_[a-z]+)' % c)
+    if 'ummulqura' not in keep:
+        out += [r'__ldn_to_ummulqura', r'__ummulqura_to_ldn', r'__ummulqura_fixup']
+    return out
